@@ -32,6 +32,9 @@ type SchedCase struct {
 	OldLock bool `json:"old_lock,omitempty"`
 	// Legacy: the store uses the legacy file name events.jsonl
 	Legacy bool `json:"legacy_name,omitempty"`
+	// StaleTmp: a temp file of a killed whole-file rewrite lies next to the log (1 = a byte
+	// prefix of the log, 2 = twice the log, 3 = longer than the log and ending mid-line)
+	StaleTmp int `json:"stale_tmp,omitempty"`
 }
 
 // genActions draws a controller schedule: every command is started once; a parked
@@ -246,15 +249,15 @@ func runSchedTest(t *testing.T, sp schedSpec) {
 			if sc.LockMissing {
 				os.Remove(filepath.Join(w.Root, ".ergo", "lock"))
 			}
-			schedPre{TornTail: sc.TornTail, OldLock: sc.OldLock, Legacy: sc.Legacy}.apply(w.Root)
+			schedPre{TornTail: sc.TornTail, OldLock: sc.OldLock, Legacy: sc.Legacy, StaleTmp: sc.StaleTmp}.apply(w.Root)
 			cmds := make([]ConcCmd, len(sc.Cmds))
 			for i, c := range sc.Cmds {
 				cmds[i] = ConcCmd{Op: c.Op, Park: c.Park}
 			}
-			var growth []string
+			var growth, mutex []string
 			if len(sc.Actions) > 0 {
 				sr := w.runSchedule(cmds, sc.Actions)
-				cmds, growth = sr.cmds, sr.growth
+				cmds, growth, mutex = sr.cmds, sr.growth, sr.mutex
 			} else {
 				cmds = w.runFree(cmds)
 			}
@@ -264,6 +267,11 @@ func runSchedTest(t *testing.T, sp schedSpec) {
 			}
 			if sp.growthOnly || sp.prop == "C02" {
 				for _, g := range growth {
+					viol = append(viol, Violation{sp.prop, g})
+				}
+			}
+			if sp.prop == "C02" || sp.prop == "C01" {
+				for _, g := range mutex {
 					viol = append(viol, Violation{sp.prop, g})
 				}
 			}
@@ -336,6 +344,10 @@ func runSchedTest(t *testing.T, sp schedSpec) {
 		if pct(rt, 10, "torn") {
 			pc.TornTail = between(rt, 5, 90, "torn.size")
 		}
+		if pct(rt, 12, "stale.tmp") {
+			pc.StaleTmp = 1 + uni(rt, 3, "stale.tmp.kind")
+			stats.Label("stale_temp_file_at_start")
+		}
 		pc.apply(w.Root)
 		if pc.OldLock {
 			stats.Label("lock_file_hours_old")
@@ -355,7 +367,7 @@ func runSchedTest(t *testing.T, sp schedSpec) {
 		}
 		cmds := make([]ConcCmd, n)
 		free := pct(rt, 25, "free") && !sp.growthOnly
-		var growth []string
+		var growth, mutex []string
 		var actions []SchedAction
 		for i := range ops {
 			cmds[i] = ConcCmd{Op: ops[i]}
@@ -402,7 +414,11 @@ func runSchedTest(t *testing.T, sp schedSpec) {
 					stats.Label("schedule.stale_validation_template")
 				}
 			}
-			switch tpl := uni(rt, 100, "template.more"); {
+			tplN := 100
+			if lockMissing {
+				tplN = 40 // both commands then run the "recreate the lock file" path: more weight on the templates below
+			}
+			switch tpl := uni(rt, tplN, "template.more"); {
 			case tpl < 12 && n >= 2:
 				// lock-holder template: one command is stopped right inside its lock section, all
 				// others run (they must bounce off with lock busy, whatever else happens - an
@@ -446,7 +462,9 @@ func runSchedTest(t *testing.T, sp schedSpec) {
 						// the command has two lock sections: aim between them
 						pb = ptsB[unB+uni(rt, lastB-unB, "gap.between")]
 					}
-					pa := ptsA[lastA]
+					// the holder stops right after taking the lock or a few calls later (after it
+					// has read the log: whatever it decides then rests on that read)
+					pa := ptsA[lastA+uni(rt, min(4, len(ptsA)-lastA), "gap.holder.at")]
 					cmds[b].Park, cmds[a].Park = &pb, &pa
 					actions = []SchedAction{{"start", b}, {"start", a}, {"resume", b}, {"resume", b}, {"resume", a}, {"resume", a}}
 					for i := range cmds {
@@ -459,7 +477,7 @@ func runSchedTest(t *testing.T, sp schedSpec) {
 			}
 			sr := w.runSchedule(cmds, actions)
 			cmds = sr.cmds
-			growth = sr.growth
+			growth, mutex = sr.growth, sr.mutex
 			if sr.lockOverlap {
 				stats.Label("started_while_another_is_parked_holding_the_lock")
 			}
@@ -476,8 +494,13 @@ func runSchedTest(t *testing.T, sp schedSpec) {
 				viol = append(viol, Violation{sp.prop, g})
 			}
 		}
+		if sp.prop == "C02" || sp.prop == "C01" {
+			for _, g := range mutex {
+				viol = append(viol, Violation{sp.prop, g})
+			}
+		}
 		if len(viol) > 0 {
-			WriteReplay(replayPath, SchedCase{Property: sp.prop, Engine: "SCHED", Test: sp.test, Setup: setup, Cmds: cmds, Actions: actions, Violations: viol, LockMissing: lockMissing, BigLogMB: bigMB, TornTail: pc.TornTail, OldLock: pc.OldLock, Legacy: pc.Legacy})
+			WriteReplay(replayPath, SchedCase{Property: sp.prop, Engine: "SCHED", Test: sp.test, Setup: setup, Cmds: cmds, Actions: actions, Violations: viol, LockMissing: lockMissing, BigLogMB: bigMB, TornTail: pc.TornTail, OldLock: pc.OldLock, Legacy: pc.Legacy, StaleTmp: pc.StaleTmp})
 			rt.Fatalf("%s violated: %v", sp.prop, viol)
 		}
 		stats.Eval()
@@ -683,6 +706,7 @@ type schedPre struct {
 	TornTail int
 	OldLock  bool
 	Legacy   bool
+	StaleTmp int
 }
 
 func (p schedPre) apply(root string) {
@@ -698,6 +722,18 @@ func (p schedPre) apply(root string) {
 			f.WriteString(frag)
 			f.Close()
 		}
+	}
+	if b := ReadLog(root); p.StaleTmp > 0 && len(b) > 0 {
+		var c []byte
+		switch p.StaleTmp {
+		case 1:
+			c = b[:len(b)*2/3]
+		case 2:
+			c = append(append([]byte{}, b...), b...)
+		default:
+			c = append(append([]byte{}, b...), b[:len(b)*3/5]...)
+		}
+		_ = os.WriteFile(LogPath(root)+".tmp", c, 0o644)
 	}
 	if p.OldLock {
 		old := time.Now().Add(-3 * time.Hour)
